@@ -162,6 +162,21 @@ for k, (t1, t2) in EXTRA2.items():
     CLAIMED[k]["technique"] += t1
     CLAIMED[k]["text"] += t2
 
+# round 4 B
+EXTRA3 = {
+ "C01": "; long runs (every scanner context x one unit repeated to 40 000 / 160 000 bytes: deadline and a bound on the growth of the time)",
+ "C03": "; programs nested a dozen blocks deep; every mix of if / elseif / else forms nested in each other (SyntaxGen family focus, exhaustive), loops, try, switch; the pre-7.3 family (a heredoc body line beginning with the label)",
+ "C06": "; programs that are malformed from 7.3 on only (pre-7.3 family)",
+ "C07": "; files with fifteen malformed statements (parsing goes on to the end)",
+ "C14": "; matrix G (names with bytes >= 0x80 in Latin-1 and UTF-8: ASCII-only folding)",
+ "C16": "; tokens without an id",
+ "C17": "; every mix of if / elseif / else forms nested in each other up to six, loops, try, switch (SyntaxGen family focus, exhaustive); self-nesting programs",
+ "C18": "; the parser object run again (reparse_check)",
+ "C11": "; TLC's counterexamples for the two named deviations of Cli.tla replayed as forced schedules on the real binary",
+}
+for k, t1 in EXTRA3.items():
+    CLAIMED[k]["technique"] += t1
+
 m = {
  "version": 1,
  "setup_cmd": "./setup.sh",
